@@ -1964,7 +1964,7 @@ def _histories(cx, n_quick, n_thorough, steps_quick, steps_thorough, kinds, repe
 
 
 @driver("C02", "history-walker-random", chunks=8, timeout=300,
-        bound="random histories (quick 600 x 25 steps, thorough 2000 x 100) over 25 operation families (add/pop/[]=/del/delete/reindex/retag/"
+        bound="random histories (quick 600 x 25 steps, thorough 1600 x 100) over 25 operation families (add/pop/[]=/del/delete/reindex/retag/"
               "Tensor.modify|reindex_|transpose_|add_tag|drop_tags|retag_/add_tag|drop_tags/isel/squeeze/split_tensor/"
               "contract_tags|contract_|^=/contract_ind|contract_between/gate_inds (7 modes)/fuse_multibonds_/new_bond|cut_bond|"
               "mangle_inner_/copy|virtual copy|deep copy|pickle|select views/partition|partition_tensors/drop+gc/"
@@ -1972,11 +1972,11 @@ def _histories(cx, n_quick, n_thorough, steps_quick, steps_thorough, kinds, repe
               "hyper-graphs of <= 12 tensors, rank <= 5, dims 1-3, hyper labels allowed, 4 dtypes; every 6th history also "
               "puts one label twice on one tensor; never one tensor object twice in one network; one size per label world-wide")
 def walker_random(cx):
-    _histories(cx, 600, 2000, 25, 100, ("random",), 6)
+    _histories(cx, 600, 1600, 25, 100, ("random",), 6)
 
 
 @driver("C02", "history-walker-structured", chunks=4, timeout=300,
-        bound="(quick 160 x 25 steps, thorough 500 x 60) same walker started from MatrixProductState (L 1-4, open/cyclic, with its conjugate / an MPO / a virtual site "
+        bound="(quick 160 x 25 steps, thorough 400 x 60) same walker started from MatrixProductState (L 1-4, open/cyclic, with its conjugate / an MPO / a virtual site "
               "view), PEPS (1-2 x 2) and TN_rand_reg(4,3) networks (subclass views, site tags); no repeated labels")
 def walker_structured(cx):
-    _histories(cx, 160, 500, 25, 60, ("mps", "peps", "reg", "mps"), 0)
+    _histories(cx, 160, 400, 25, 60, ("mps", "peps", "reg", "mps"), 0)
